@@ -688,3 +688,7 @@ mod tests {
         assert!(err.to_string().contains("file too short"));
     }
 }
+
+#[cfg(kani)]
+#[path = "/verif/kani/rten/external_data.rs"]
+mod verif_kani;
